@@ -42,6 +42,7 @@ func (q *vQueue) AddRateLimited(item interface{}) {
 func (q *vQueue) NumRequeues(item interface{}) int { return sym.IntIn("requeues", 0, 40) }
 func (q *vQueue) Forget(item interface{}) { q.log = append(q.log, fmt.Sprintf("forget %v", item)) }
 func (q *vQueue) Done(item interface{})   { q.log = append(q.log, fmt.Sprintf("done %v", item)) }
+func (q *vQueue) ShutDown()               {}
 func (q *vQueue) Get() (interface{}, bool) {
 	if len(q.items) == 0 {
 		return nil, true
@@ -144,6 +145,8 @@ func vUnion(a, b []string) []string {
 func vDedup(a []string) []string { return vUnion(a, nil) }
 
 // VH_Events: a = [opts]; bit0: a third set with an invalid selector lives in the same namespace.
+// The controller is built by the real constructor and events are delivered through the
+// handlers it registered with the (recording) informers.
 func VH_Events(a []int) {
 	opts := a[0]
 	w := &vWorld{}
@@ -159,17 +162,22 @@ func VH_Events(a []int) {
 		w.sets = append(w.sets, s3)
 		sym.Disc("invalid-selector-in-namespace")
 	}
-	ssc := vNewController(w)
-	q := &vQueue{}
-	ssc.queue = q
+	// the controller as its constructor wires it; events go through the registered handlers
+	x := vNewWiredController(w)
+	q := x.q
+	sym.Assert(len(x.pods.handlers) == 1 && len(x.sets.handlers) == 1, "C16", "one handler each is registered for pods and for sets")
+	if len(x.pods.handlers) != 1 || len(x.sets.handlers) != 1 {
+		return
+	}
+	podH, setH := x.pods.handlers[0], x.sets.handlers[0]
 
 	var want []string
-	kind := sym.Pick("event", 7)
+	kind := sym.Pick("event", 8)
 	switch kind {
 	case 0: // add
 		p := vEvtBuildPod("new")
 		sym.Note("add", p.owner, p.labels, p.term)
-		ssc.addPod(p.pod)
+		podH.OnAdd(p.pod, sym.Pick("initialList", 2) == 1)
 		switch {
 		case p.term: // observed while already terminating: a deletion
 			want = p.ownerKeys()
@@ -186,7 +194,7 @@ func VH_Events(a []int) {
 			n.pod.ResourceVersion = "2"
 		}
 		sym.Note("update", o.owner, o.labels, n.owner, n.labels, same)
-		ssc.updatePod(o.pod, n.pod)
+		podH.OnUpdate(o.pod, n.pod)
 		if !same {
 			ownerChanged := o.owner != n.owner
 			if ownerChanged {
@@ -201,26 +209,88 @@ func VH_Events(a []int) {
 	case 2: // delete
 		p := vEvtBuildPod("old")
 		sym.Note("delete", p.owner, p.labels)
-		ssc.deletePod(p.pod)
+		podH.OnDelete(p.pod)
 		want = p.ownerKeys()
 	case 3: // deletion learned late: tombstone holding the pod
 		p := vEvtBuildPod("old")
 		sym.Note("tombstone", p.owner, p.labels)
-		ssc.deletePod(cache.DeletedFinalStateUnknown{Key: vNS + "/web-1-0", Obj: p.pod})
+		podH.OnDelete(cache.DeletedFinalStateUnknown{Key: vNS + "/web-1-0", Obj: p.pod})
 		want = p.ownerKeys()
 	case 4: // tombstone holding something else, and a non-pod object
-		ssc.deletePod(cache.DeletedFinalStateUnknown{Key: "x", Obj: s1})
-		ssc.deletePod(s1)
+		podH.OnDelete(cache.DeletedFinalStateUnknown{Key: "x", Obj: s1})
+		podH.OnDelete(s1)
 		sym.Note("junk")
-	case 5: // any change to a set enqueues it
-		ssc.enqueueStatefulSet(s1)
-		ssc.enqueueStatefulSet(s2)
+	case 5: // a set appears, a set disappears
+		setH.OnAdd(s1, sym.Pick("initialList", 2) == 1)
+		setH.OnDelete(s2)
 		sym.Note("sets")
 		want = []string{vNS + "/" + vSetName, vNS + "/db"}
 	case 6: // deletion of a set learned through a tombstone
-		ssc.enqueueStatefulSet(cache.DeletedFinalStateUnknown{Key: vNS + "/" + vSetName, Obj: s1})
+		setH.OnDelete(cache.DeletedFinalStateUnknown{Key: vNS + "/" + vSetName, Obj: s1})
 		sym.Note("set tombstone")
 		want = []string{vNS + "/" + vSetName}
+	case 7: // any change to a set: spec, status, annotations only (delete-slots, pause flag raised or lowered), or a resync
+		old := s1.DeepCopy()
+		cur := s1.DeepCopy()
+		old.ResourceVersion, cur.ResourceVersion = "1", "1"
+		changed := false
+		if sym.Pick("specChanged", 2) == 1 {
+			r := int32(3)
+			cur.Spec.Replicas = &r
+			cur.Generation = old.Generation + 1
+			changed = true
+		}
+		if sym.Pick("statusChanged", 2) == 1 {
+			cur.Status.Replicas = old.Status.Replicas + 1
+			changed = true
+		}
+		switch sym.Pick("slotsChanged", 3) {
+		case 1:
+			cur.Annotations = map[string]string{helper.DeleteSlotsAnn: "[0]"}
+			changed = true
+		case 2:
+			old.Annotations = map[string]string{helper.DeleteSlotsAnn: "[0]"}
+			changed = true
+		}
+		switch sym.Pick("pause", 4) {
+		case 1: // paused now
+			if cur.Annotations == nil {
+				cur.Annotations = map[string]string{}
+			}
+			cur.Annotations[helper.PausedReconcileAnn] = "true"
+			changed = true
+		case 2: // resumed now
+			if old.Annotations == nil {
+				old.Annotations = map[string]string{}
+			}
+			old.Annotations[helper.PausedReconcileAnn] = "true"
+			changed = true
+		case 3: // paused before and after
+			for _, s := range []*apps.StatefulSet{old, cur} {
+				if s.Annotations == nil {
+					s.Annotations = map[string]string{}
+				}
+				s.Annotations[helper.PausedReconcileAnn] = "true"
+			}
+		}
+		if sym.Pick("labelsChanged", 2) == 1 {
+			cur.Labels = map[string]string{"team": "x"}
+			changed = true
+		}
+		if changed {
+			cur.ResourceVersion = "2"
+		}
+		sym.Note("set update", "changed", changed)
+		setH.OnUpdate(old, cur)
+		if changed {
+			sym.Cover("a set changed")
+			want = []string{vNS + "/" + vSetName}
+		} else {
+			// a resync delivers identical objects: enqueueing is allowed, not required
+			sym.Cover("set resync")
+			want = vDedup(q.added())
+			sym.Assert(len(want) <= 1 && (len(want) == 0 || want[0] == vNS+"/"+vSetName), "C16", "exactly the sets the event concerns are enqueued")
+		}
 	}
 	want = vDedup(want)
 	got := vDedup(q.added())
